@@ -177,6 +177,116 @@ func c19(c *core.Ctx) {
 		}
 		c.Check(feed["ServiceName"] == "GetFullyQualifiedName" && feed["MethodName"] == "GetName", gk+":data:names", gen.Pos(), "ServiceName ← sd.GetFullyQualifiedName(), MethodName ← md.GetName()", fmt.Sprintf("the path components are fed from %q and %q (want the fully-qualified service name and the method's proto name)", feed["ServiceName"], feed["MethodName"]))
 		c.Check(strings.Contains(feed["RequestType"], "GetOutputType"), gk+":data:output-type", gen.Pos(), "the type allocated by the unary stub is the method's OUTPUT type", fmt.Sprintf("the message type allocated for the unary response is fed from %q, not from the method's output type", feed["RequestType"]))
+		// each service gets its registration function: the emission of RegisterHandler<Svc> is executed in every
+		// iteration of the per-service loop (no fast path or option skips it)
+		{
+			var regs []*ssa.Call
+			for _, sp := range core.CallsIn(gen, func(_ *ssa.Call, ci core.CallInfo) bool { return ci.Is("fmt.Sprintf") }) {
+				if f, ok := core.ConstString(sp.Call.Args[0]); ok && strings.HasPrefix(f, "RegisterHandler") {
+					regs = append(regs, sp)
+				}
+			}
+			key := gk + ":registration-for-every-service"
+			if len(regs) == 0 {
+				c.Fail(key, gen.Pos(), "ANCHOR-MISSING: no RegisterHandler<Svc> function is emitted by the generator")
+			}
+			for _, reg := range regs {
+				rb := reg.Block()
+				// innermost loop header: the closest dominator of rb that is reachable from rb
+				var hdr *ssa.BasicBlock
+				for b := rb; b != nil; b = b.Idom() {
+					if b != rb && core.Walk(core.Loc{B: rb, Idx: 0}, nil, nil)[b.Instrs[0]] {
+						hdr = b
+						break
+					}
+				}
+				if hdr == nil {
+					c.Fail(key, reg.Pos(), "the registration function is not emitted inside a per-service loop")
+					continue
+				}
+				okAll := true
+				for si, sb := range hdr.Succs {
+					_ = si
+					if !core.Walk(core.Loc{B: sb, Idx: 0}, nil, nil)[reg] {
+						continue // the loop exit
+					}
+					// from the body entry, the header is not reached again without passing the emission
+					v := core.Walk(core.Loc{B: sb, Idx: 0}, func(in ssa.Instruction) bool { return in == ssa.Instruction(reg) }, nil)
+					if v[hdr.Instrs[0]] {
+						okAll = false
+					}
+				}
+				c.Check(okAll, key, reg.Pos(), "every iteration of the per-service loop emits RegisterHandler<Svc>", "an iteration of the per-service loop can go on to the next service without emitting RegisterHandler<Svc> (a skip before the emission): such a service gets no registration function")
+			}
+		}
+		// the template a branch gets is the one made from ITS text: a cache inside the template maker is keyed by
+		// the text (or by something that determines it at every call site)
+		{
+			makers := map[*ssa.Function][]*ssa.Call{}
+			for _, mt := range core.CallsIn(gen, isTemplateMaker) {
+				f := core.InfoOf(&mt.Call).Static
+				makers[f] = append(makers[f], mt)
+			}
+			for mk, sites := range makers {
+				key := gk + ":template-cache:" + mk.Name()
+				paramIdx := func(v ssa.Value) int {
+					for _, o := range core.Origins(v) {
+						for i, pp := range mk.Params {
+							if o == ssa.Value(pp) {
+								return i
+							}
+						}
+					}
+					return -1
+				}
+				textIdx, keyIdx, cached := -1, -1, false
+				core.Instrs(mk, func(in ssa.Instruction) {
+					switch x := in.(type) {
+					case *ssa.Call:
+						ci := core.InfoOf(&x.Call)
+						if ci.Pkg == "text/template" && ci.Name == "Parse" && len(x.Call.Args) > 0 {
+							textIdx = paramIdx(x.Call.Args[len(x.Call.Args)-1])
+						}
+					case *ssa.MapUpdate:
+						if core.TypeStr(x.Value.Type()) == "*text/template.Template" {
+							cached = true
+							keyIdx = paramIdx(x.Key)
+						}
+					}
+				})
+				switch {
+				case !cached:
+					c.OkTrivial(key, mk.Pos(), "the template maker keeps no cache")
+				case textIdx < 0 || keyIdx < 0:
+					c.Undecided(key, mk.Pos(), "cannot relate the cache key and the parsed text to parameters of the template maker")
+				case textIdx == keyIdx:
+					c.Ok(key, mk.Pos(), "the cache is keyed by the template text itself")
+				default:
+					byKey := map[string]string{}
+					bad, und := "", false
+					for _, st := range sites {
+						k, okK := core.ConstString(st.Call.Args[keyIdx])
+						t, okT := core.ConstString(st.Call.Args[textIdx])
+						if !okK || !okT {
+							und = true
+							continue
+						}
+						if prev, seen := byKey[k]; seen && prev != t {
+							bad = k
+						}
+						byKey[k] = t
+					}
+					switch {
+					case bad != "":
+						c.Fail(key, mk.Pos(), "the template cache is keyed by a name, and the name %q is given to two different template texts: the second branch is rendered with the first one's template (e.g. a server-streaming stub with the client-streaming body)", bad)
+					case und:
+						c.Undecided(key, mk.Pos(), "the template cache is keyed by a value that is not a constant at every call site")
+					default:
+						c.Ok(key, mk.Pos(), "the cache key determines the text at every call site (%d keys)", len(byKey))
+					}
+				}
+			}
+		}
 		for _, mt := range core.CallsIn(gen, isTemplateMaker) {
 			text, ok := core.ConstString(mt.Call.Args[len(mt.Call.Args)-1])
 			br := branchOf(mt)
